@@ -5,6 +5,21 @@ D = os.path.dirname(os.path.dirname(os.path.abspath(__file__)))
 
 # property -> (technique, level text, level note, design ref)
 CLAIMED = {
+ "C04": ("field-based value-flow (shape) analysis of the parser over go/ssa + per-allocation-site abstract evaluation of the consumer methods; residual-set dataflow for switch exhaustiveness",
+         "Decides for every allocation site of every node type that SQL/Pos/End never dereference a field that may be nil at that site (helpers summarised, branches on site-constant fields pruned), that every type/constant switch whose fall-through panics covers what can flow to it, and that consumer indexing is length-guarded.",
+         "Trusted: go/ssa, VTA; the TKAI summaries used to refine nil returns of tryParse* helpers; one listed assumption (peekDelimiter's byte guard). Not decided: trees built by hand by users.", "DESIGN.md §2 C04"),
+ "C07": ("extraction of the operator table from the parser's SSA with the token-kind abstract interpreter; comparison with a reference table; order-isomorphism check of the printer's exprPrec switch",
+         "The property is about a finite table and is decided exactly: levels, token→operator constants, associativity, operand parsers, printer precedence ranks and ParenExpr preservation, for all operators.",
+         "Trusted: the GoogleSQL reference table typed into the checker; TKAI guard extraction.", "DESIGN.md §2 C07"),
+ "C08": ("token-kind abstract interpretation (forward dataflow over SSA, interprocedural summaries = FIRST/pass sets) + contradiction rules",
+         "Decides contradictions between a guard and what it guards at all ~1400 call sites of parse functions, producibility of every kind constant / pseudo-keyword (828 uses), inclusion of each statement production's first-token set in its routing guard, and shared productions between entry points.",
+         "Trusted: TKAI transfer functions (recovery handlers modelled as re-entry at the clone point). Not decided: acceptance of every sentence of the reference grammar.", "DESIGN.md §2 C08"),
+ "C11": ("token-kind abstract interpretation run twice per <eof> test (<eof> vs ';') with recovery off and outcome comparison; taint analysis; call-graph rule",
+         "Decides equal treatment of the two statement terminators in every production, the shape of the statement-list loop, shared productions, and position independence of the parser.",
+         "Trusted: TKAI. Not decided: equality of trees up to a shift as a theorem.", "DESIGN.md §2 C11"),
+ "C16": ("forward taint analysis over go/ssa (interprocedural, field-sensitive on locals) + def-use rules on token spellings",
+         "Decides that no branch of the parser and no non-position AST field depends on whitespace, comments or offsets, and that spellings are compared only through char.EqualFold; reserved words go through char.ToUpper (C14).",
+         "Trusted: go/ssa def-use, VTA. Not decided: the lexer side (re-spacing never changes token boundaries).", "DESIGN.md §2 C16"),
  "C03": ("interprocedural may-escape analysis of *Error panics over go/ssa + VTA call graph (dominance of recovering defers, flag specialisation); value-flow check of every recover() use; loop-progress analysis over token-kind states",
          "Decides for every exported entry point that no syntax-error panic can escape (every raising instruction on every call path is dominated by a recovering defer whose handler does not raise), that every recover() value is re-panicked unless it is a *Error and recorded when it is, and the dynamic types of the error results.",
          "Trusted: go/ssa, VTA call graph resolution, standard-library callees treated as non-raising. Not decided: run-time panics from byte arithmetic (index/slice bounds), recursion depth.", "DESIGN.md §2 C03"),
